@@ -485,6 +485,79 @@ impl<const M: usize> Sim<M> {
         self.finish_step(OpKind::Alloc, what, pre, outcome, p.unwrap_or(0), l.size());
     }
 
+    /// zero-sized elements: no memory, but the initialisers still have to run once per element, in order
+    fn slice_zst<Z: Clone + Default + 'static>(&mut self, op: Op, len: usize, mk: fn() -> Z) {
+        let fallible = self.fallible(op.a & 1 == 1);
+        let flavour = (op.a >> 1) % 5; // 0 fill_with, 1 fill_iter, 2 fill_clone, 3 fill_default, 4 clone
+        let l = Layout::array::<Z>(len).unwrap();
+        self.note_align_stats(0, l.align());
+        let pre = self.pre(Some(l), fallible);
+        let what = ["alloc_slice_fill_with", "alloc_slice_fill_iter", "alloc_slice_fill_clone", "alloc_slice_fill_default", "alloc_slice_clone"][flavour as usize];
+        let next = Cell::new(0usize);
+        let ordered = Cell::new(true);
+        calls_reset();
+        let src: Vec<Z> = (0..len).map(|_| mk()).collect();
+        let one = mk();
+        calls_reset();
+        struct ZIt<'a, Z> {
+            i: usize,
+            len: usize,
+            next: &'a Cell<usize>,
+            mk: fn() -> Z,
+        }
+        impl<'a, Z> Iterator for ZIt<'a, Z> {
+            type Item = Z;
+            fn next(&mut self) -> Option<Z> {
+                let _u = enter_user();
+                if self.i >= self.len {
+                    return None;
+                }
+                self.i += 1;
+                self.next.set(self.next.get() + 1);
+                Some((self.mk)())
+            }
+            fn size_hint(&self) -> (usize, Option<usize>) {
+                (self.len - self.i, Some(self.len - self.i))
+            }
+        }
+        impl<'a, Z> ExactSizeIterator for ZIt<'a, Z> {}
+        let res = self.call(|b| {
+            let f = |i: usize| {
+                let _u = enter_user();
+                if next.get() != i {
+                    ordered.set(false);
+                }
+                next.set(i + 1);
+                mk()
+            };
+            let r: Option<&mut [Z]> = match (flavour, fallible) {
+                (0, false) => Some(b.alloc_slice_fill_with(len, f)),
+                (0, true) => b.try_alloc_slice_fill_with(len, f).ok(),
+                (1, false) => Some(b.alloc_slice_fill_iter(ZIt { i: 0, len, next: &next, mk })),
+                (1, true) => b.try_alloc_slice_fill_iter(ZIt { i: 0, len, next: &next, mk }).ok(),
+                (2, false) => Some(b.alloc_slice_fill_clone(len, &one)),
+                (2, true) => b.try_alloc_slice_fill_clone(len, &one).ok(),
+                (3, false) => Some(b.alloc_slice_fill_default::<Z>(len)),
+                (3, true) => b.try_alloc_slice_fill_default::<Z>(len).ok(),
+                (_, false) => Some(b.alloc_slice_clone(&src)),
+                (_, true) => b.try_alloc_slice_clone(&src).ok(),
+            };
+            r.map(|s| (s.as_mut_ptr() as usize, s.len()))
+        });
+        let (outcome, r) = self.post_call(OpKind::Alloc, what, res, pre);
+        if let Some((p, n)) = r {
+            if n != len {
+                self.v("C01", format!("{what}: returned a slice of {n} zero-sized elements for a request of {len}"));
+            }
+            self.check_new_block(what, p, 0, l.align(), None);
+            let driven = if flavour <= 1 { next.get() } else { calls() as usize };
+            if driven != len || !ordered.get() {
+                self.v("C02", format!("{what} with {len} zero-sized elements (align {}): the closure / iterator / Clone / Default was driven {driven} times (in index order: {})", l.align(), ordered.get()));
+            }
+        }
+        self.finish_step(OpKind::Alloc, what, pre, outcome, r.map_or(0, |x| x.0), 0);
+    }
+
     pub fn op_slice(&mut self, op: Op) {
         let len = if op.b >= 250 { map_size(op.b, op.c) } else if op.b >= 200 { op.c as usize * 37 } else { op.c as usize };
         if let Some(u) = self.opts.uniform {
@@ -496,6 +569,12 @@ impl<const M: usize> Sim<M> {
                 _ => self.slice_words::<u128>(op, len),
             }
             return;
+        }
+        if op.b % 16 == 15 && len <= 300 {
+            if op.c & 1 == 0 {
+                return self.slice_zst::<Zc1>(op, len, || Zc1);
+            }
+            return self.slice_zst::<Zc16>(op, len, || Zc16);
         }
         match op.b % 7 {
             0 => self.slice_words::<u8>(op, len),
@@ -709,3 +788,37 @@ impl Df {
 
 #[allow(dead_code)]
 fn _assert_bump_generic<const M: usize>(_b: &Bump<M>) {}
+
+
+/// zero-sized elements whose Clone / Default are counted
+pub struct Zc1;
+impl Clone for Zc1 {
+    fn clone(&self) -> Self {
+        let _u = enter_user();
+        calls_inc();
+        Zc1
+    }
+}
+impl Default for Zc1 {
+    fn default() -> Self {
+        let _u = enter_user();
+        calls_inc();
+        Zc1
+    }
+}
+#[repr(align(16))]
+pub struct Zc16;
+impl Clone for Zc16 {
+    fn clone(&self) -> Self {
+        let _u = enter_user();
+        calls_inc();
+        Zc16
+    }
+}
+impl Default for Zc16 {
+    fn default() -> Self {
+        let _u = enter_user();
+        calls_inc();
+        Zc16
+    }
+}
